@@ -402,6 +402,25 @@ def unfoldUnnamed (f : ValueType → Option Tree) : List ValueType → Option Fo
     | some t, some fr => some (.cons [] t fr)
     | _, _ => none
 
+/-- one defined type, given the unfolding `u` of the value types it mentions; an alias unfolds
+to what it aliases -/
+def unfoldDefined (u : ValueType → Option Tree) : DefinedType → Option Tree
+  | .alias a => u a
+  | .tuple ts => (unfoldUnnamed u ts).map .tuple
+  | .list a => (u a).map .list
+  | .fixedSizeList a n => (u a).map (.fixedList · n)
+  | .option a => (u a).map .option
+  | .result ok err =>
+    match unfoldOpt u ok, unfoldOpt u err with
+    | some a, some b => some (.result a b)
+    | _, _ => none
+  | .variant cs => (unfoldNamedOpt u cs).map .variant
+  | .record fs => (unfoldNamed u fs).map .record
+  | .flags ns => some (.flags ns)
+  | .enum ns => some (.enum ns)
+  | .stream a => (unfoldOpt u a).map .stream
+  | .future a => (unfoldOpt u a).map .future
+
 /-- value type → tree; aliases disappear -/
 def Types.unfoldVT (t : Types) : Nat → ValueType → Option Tree
   | 0, _ => none
@@ -411,21 +430,7 @@ def Types.unfoldVT (t : Types) : Nat → ValueType → Option Tree
   | fuel + 1, .defined d =>
     match t.defined[d]? with
     | none => none
-    | some (.alias a) => t.unfoldVT fuel a
-    | some (.tuple ts) => (unfoldUnnamed (t.unfoldVT fuel) ts).map .tuple
-    | some (.list a) => (t.unfoldVT fuel a).map .list
-    | some (.fixedSizeList a n) => (t.unfoldVT fuel a).map (.fixedList · n)
-    | some (.option a) => (t.unfoldVT fuel a).map .option
-    | some (.result ok err) =>
-      match unfoldOpt (t.unfoldVT fuel) ok, unfoldOpt (t.unfoldVT fuel) err with
-      | some a, some b => some (.result a b)
-      | _, _ => none
-    | some (.variant cs) => (unfoldNamedOpt (t.unfoldVT fuel) cs).map .variant
-    | some (.record fs) => (unfoldNamed (t.unfoldVT fuel) fs).map .record
-    | some (.flags ns) => some (.flags ns)
-    | some (.enum ns) => some (.enum ns)
-    | some (.stream a) => (unfoldOpt (t.unfoldVT fuel) a).map .stream
-    | some (.future a) => (unfoldOpt (t.unfoldVT fuel) a).map .future
+    | some x => unfoldDefined (t.unfoldVT fuel) x
 
 /-- function type id → `Tree.func` -/
 def Types.unfoldFunc (t : Types) (fuel : Nat) (f : Nat) : Option Tree :=
